@@ -27,6 +27,27 @@
 
 extern "C" const char *__asan_default_options() { return "quarantine_size_mb=8:thread_local_quarantine_size_kb=64:allocator_release_to_os_interval_ms=-1"; }
 
+
+/// Whether SIG is listed as an open known finding for this run (--known on the command line, VP_KNOWN for
+/// libFuzzer).  The "continue behind a known crashing class" detours are taken only while their signature is
+/// listed; otherwise the class is executed like any other input and a sanitizer abort is a violation.
+static bool knownOpen(const std::string &sig)
+{
+    static const std::set<std::string> *known = [] {
+        std::string list;
+        if (const char *e = getenv("VP_KNOWN")) list = e;
+        std::ifstream f("/proc/self/cmdline", std::ios::binary);
+        const std::string all((std::istreambuf_iterator<char>(f)), std::istreambuf_iterator<char>());
+        std::vector<std::string> args;
+        std::string cur;
+        for (char ch : all) { if (ch == '\0') { args.push_back(cur); cur.clear(); } else cur += ch; }
+        if (!cur.empty()) args.push_back(cur);
+        for (size_t i = 0; i + 1 < args.size(); ++i) if (args[i] == "--known") list += "," + args[i + 1];
+        return new std::set<std::string>(vp::splitCsv(list));
+    }();
+    return known->count(sig) > 0;
+}
+
 // ------------------------------------------------------------------ reference decoder (RFC 1035 4.1)
 
 struct RefRR {
@@ -532,7 +553,7 @@ static vp::Verdict checkQuery(const QCase &c, vp::Ctx &ctx)
     // survives (repaired tree), EDNS queries are built and checked in-process like all others.
     static int ednsDefect = -1; // -1 not probed yet, 0 absent, 1 present
     static std::string ednsReport;
-    if (c.edns > 0 && !c.direct && ednsDefect < 0) {
+    if (c.edns > 0 && !c.direct && ednsDefect < 0 && knownOpen("query:ubsan-null-memcpy-source-in-rfc1035RRPack-for-OPT-record")) {
         int errFd[2];
         if (pipe(errFd) != 0) { ctx.excluded("pipe() failed"); return vp::pass(); }
         fflush(nullptr);
